@@ -3,5 +3,5 @@
 EXTENDS DocGen
 MCAlphabet == {"P","DIV","H","T","t","INL","A","AJ","FONT","BR","UL","LI","BQ","PRE","IMG","FIG","FIGL","DT","LT","HID","HIN","SKS","SKF","LNK","CMT"}
 MCRoots    == {"P","DIV","H","T","UL","BQ","PRE","IMG","FIG","FIGL","DT","LT","HID","SKS","SKF","LNK","CMT"}
-FlatAlphabet == {"T", "INL", "SKF", "H", "BR", "SHR", "CMT"}
+FlatAlphabet == {"T", "INL", "SKF", "H", "BR", "SHR"}
 ====
